@@ -71,7 +71,7 @@ FLOORS = {
                  "nested_network_cases": 5000, "sliced_fromsig_cases": 16000, "sliced_tosig_cases": 9000,
                  "cut_fromsig_cases": 3500, "stale_sensitivity_cases": 10000, "overhang_cases": 300},
 }
-TIMEOUT_CASE = 120
+TIMEOUT_CASE = 600
 EXPLANATION = ("clauses -> oracle: (1) every perturbable entry reported once per output and direction: order-free perfect "
                "matching of the test_fn stream with the expected records (entries x {re,im} x outputs; zero entries "
                "excluded iff keep_zero_structure); (2) analytical value = back-propagation of the observed seed through the "
